@@ -319,6 +319,7 @@ type monC07 struct {
 }
 
 func (m *monC07) Name() string { return "C07" }
+func (m *monC07) Init(w *World) { w.armedShadow = w.armedShadow || w.PropOverride == "C07" }
 
 var c07Rules = map[string]bool{"wrk.record/height-not-above-last": true, "wrk.record/unknown-id": true, "wrk.record/not-owner": true, "bcn.record/unknown-id": true, "bcn.record/not-owner": true}
 
@@ -419,7 +420,10 @@ type monC08 struct{ BaseMonitor }
 func (m *monC08) Name() string { return "C08" }
 func (m *monC08) Init(w *World) {
 	// under the C08 check proper, exports are also imported and the counters re-checked there
-	w.armedC08 = w.PropOverride == "C08"
+	w.armedC08 = w.PropOverride == "C08" || w.PropOverride == "C18"
+	if w.PropOverride == "C08" {
+		w.armedShadow = true
+	}
 }
 
 var c08Rules = map[string]bool{"wrk.purchase/above-max": true, "bcn.purchase/above-max": true, "wrk.purchase/not-owner": true, "bcn.purchase/not-owner": true, "wrk.purchase/unknown-id": true, "bcn.purchase/unknown-id": true}
@@ -556,7 +560,10 @@ type monC09 struct {
 }
 
 func (m *monC09) Name() string  { return "C09" }
-func (m *monC09) Init(w *World) { m.meta = map[string]string{} }
+func (m *monC09) Init(w *World) {
+	m.meta = map[string]string{}
+	w.armedShadow = w.armedShadow || w.PropOverride == "C09"
+}
 
 var c09Rules = map[string]bool{"wrk.record/unknown-id": true, "wrk.record/not-owner": true, "bcn.record/unknown-id": true, "bcn.record/not-owner": true,
 	"wrk.purchase/not-owner": true, "bcn.purchase/not-owner": true, "wrk.purchase/unknown-id": true, "bcn.purchase/unknown-id": true}
@@ -627,8 +634,13 @@ func (m *monC09) checkAll(w *World, ctx sdk.Context) {
 		} else {
 			n = len(w.Ref.App.BeaconKeeper.GetAllBeacons(ctx))
 		}
-		if n != len(rm.Regs) {
-			w.Violate("C09", "C09/"+v.kind+"/registration-count-differs", "chain lists %d, model %d", n, len(rm.Regs))
+		// plus the registrations injected through the genesis document, which the models do not follow
+		extra := w.T.Knobs.ManyRegs
+		if br := w.T.Knobs.BigReg; br != nil && br.Kind == v.kind {
+			extra++
+		}
+		if n != len(rm.Regs)+extra {
+			w.Violate("C09", "C09/"+v.kind+"/registration-count-differs", "chain lists %d, model %d", n, len(rm.Regs)+extra)
 		}
 	}
 }
